@@ -17,6 +17,7 @@ def main():
                     choices=['quick', 'thorough'])
     ap.add_argument('--replay', default=None)
     a = ap.parse_args()
+    os.environ['VERIF_RUNNING_TIER'] = a.tier
     mod = importlib.import_module(a.prop.lower())
     if a.replay:
         sys.exit(mod.replay(a.replay))
